@@ -2,6 +2,8 @@
 # Sensitivity self-test: re-introduce each repaired defect (reverse patch of its fix: commit) and each
 # seeded change into /repo, run the owning property's check, expect VIOLATION (rc 1); /repo is always restored.
 # usage: selftest/run.sh [quick|thorough] [fixes|seeded|all]   (never run while another check uses /repo)
+# With BSV_STAGES=native only the native stages run (fast); seeded/C08c is undefined behaviour with right
+# results and is then expected to be MISSED - it needs the Miri stages (run without BSV_STAGES).
 tier="${1:-quick}"; what="${2:-all}"
 cd /verif || exit 3
 declare -A OWNER=( [F1]=C02 [F2]=C04 [F3]=C04 [F4]=C05 [F5]=C05 [F6]=C09 [F7]=C10 [F8]=C17 [F9]=C03 [F10]=C04 [F11]=C06 )
@@ -16,7 +18,7 @@ if [ "$what" != "seeded" ]; then
   for f in /verif/selftest/F*-re*-*.diff; do id=$(basename $f | cut -d- -f1); run_one $id $f ${OWNER[$id]}; done
 fi
 if [ "$what" != "fixes" ]; then
-  for d in /verif/seeded/C???; do id=$(basename $d); run_one $id $d/patch.diff ${id:0:3}; done
+  for d in /verif/seeded/C???; do id=$(basename $d); pf=$d/patch.diff; for r in $d/patch-rebased-*.diff; do [ -f "$r" ] && pf=$r; done; run_one $id $pf ${id:0:3}; done
 fi
 echo "selftest: detected=$pass missed=$fail"
 [ $fail -eq 0 ]
